@@ -1,0 +1,27 @@
+//go:build verif
+
+package zstd
+
+// Add-only export file for the verification harness in /verif (build tag "verif").
+
+import "unsafe"
+
+// VerifObj: identity of the pooled object behind a reader/writer made by this
+// package (0 when it holds none).
+func VerifObj(v interface{}) uintptr {
+	switch p := v.(type) {
+	case *reader:
+		return uintptr(unsafe.Pointer(p.dec))
+	case *writer:
+		return uintptr(unsafe.Pointer(p.enc))
+	}
+	return 0
+}
+
+// VerifDrainPools empties the decoder pool and the codec's encoder pool.
+func VerifDrainPools(c *Codec) {
+	for decoderPool.Get() != nil {
+	}
+	for c.encoderPool.Get() != nil {
+	}
+}
